@@ -18,7 +18,7 @@ ASSUMPTIONS = [
 def shards(tier, seed):
     from vmon.spec import cdb as S
 
-    out = [{"id": n, "cmd": n, "n": 120 if tier == "quick" else 5000} for n in S.COMMANDS]
+    out = [{"id": n, "cmd": n, "n": 120 if tier == "quick" else 15000} for n in S.COMMANDS]
     out += [{"id": n + ".base-first", "cmd": n, "n": 30 if tier == "quick" else 500, "base_first": True} for n in S.COMMANDS]
     return out
 
